@@ -60,7 +60,7 @@ func init() {
 				m.addPCKeepModel(c)
 				return nil
 			}
-			r, vals := m.solver.Check([]*Term{c}, m.vars)
+			r, vals := m.check([]*Term{c}, m.vars)
 			if r == "unsat" {
 				m.endPath("infeasible")
 			}
@@ -232,9 +232,17 @@ func init() {
 		"vfStub": func(fr *frame, a []value) value {
 			m := fr.m()
 			if m.stubs == nil {
-				m.stubs = map[string]*int{}
+				m.stubs = map[string]*stubState{}
 			}
-			m.stubs[strArg(a[0])] = new(int)
+			m.stubs[strArg(a[0])] = &stubState{}
+			return nil
+		},
+		"vfStubNondet": func(fr *frame, a []value) value {
+			m := fr.m()
+			if m.stubs == nil {
+				m.stubs = map[string]*stubState{}
+			}
+			m.stubs[strArg(a[0])] = &stubState{nondet: true}
 			return nil
 		},
 		"vfUnstub": func(fr *frame, a []value) value {
@@ -243,7 +251,7 @@ func init() {
 		},
 		"vfStubCalls": func(fr *frame, a []value) value {
 			if c, ok := fr.m().stubs[strArg(a[0])]; ok {
-				return mkBV(64, uint64(*c))
+				return mkBV(64, uint64(c.calls))
 			}
 			return mkBV(64, 0)
 		},
